@@ -107,10 +107,24 @@ func newRunner(w *world) *runner {
 }
 
 // advance imports the genuine base-chain block into the victim (it must be accepted).
+// The import is logged as catalogue entry valid/genuine_base_import: the long-lived (warm) validator and node must take
+// the packer's block. If they refuse it, the case is on record and the run goes on with a cold node.
 func (r *runner) advance(blk *block.Block) error {
+	w := r.w
+	parent := w.summary(blk.Header().ParentID())
+	r.snap = r.victim.KV.Clone()
+	proj, unknown := w.project(parent, blk)
+	ev := trace.Ev{"kind": "mutant", "rule": "valid", "var": "genuine_base_import", "goexpect": "accept", "unknown": unknown, "pknown": true}
+	for k, x := range proj {
+		ev[k] = x
+	}
+	if r.feed(ev, parent, blk, "advance") {
+		return nil
+	}
+	// feed has put a cold node over the snapshot in place
 	o := deliver(r.victim, blk)
 	if o.Verdict != "accept" {
-		return fmt.Errorf("node under test refused the genuine base block %d: %s %s", blk.Header().Number(), o.Class, o.Err)
+		return fmt.Errorf("a cold node refused the genuine base block %d as well: %s %s", blk.Header().Number(), o.Class, o.Err)
 	}
 	return nil
 }
@@ -139,7 +153,10 @@ func blockHex(blk *block.Block) string {
 // feed runs one block through fresh / warm / node and appends the Case event. parent must be known to the victim.
 // onClone: deliver to a node opened over a copy of the victim's store (used when acceptance is expected, so that the
 // victim itself stays at the parent).
-func (r *runner) feed(ev trace.Ev, parent *chain.BlockSummary, blk *block.Block, onClone bool) {
+// mode: "victim" (rejection expected), "clone" (see above), "advance" (the genuine next block: the victim keeps it).
+// Returns whether the node accepted.
+func (r *runner) feed(ev trace.Ev, parent *chain.BlockSummary, blk *block.Block, mode string) bool {
+	onClone := mode == "clone"
 	w := r.w
 	v := r.victim
 	vp, err := v.Repo.GetBlockSummary(parent.Header.ID())
@@ -199,11 +216,16 @@ func (r *runner) feed(ev trace.Ev, parent *chain.BlockSummary, blk *block.Block,
 	r.nextID++
 	r.stats["cases"]++
 	// a node that accepted (or panicked on) something on the victim itself is no longer "at the parent"
-	if !onClone && (node.Verdict != "reject" || d2 != d0) {
+	polluted := node.Verdict != "reject" || d2 != d0
+	if mode == "advance" {
+		polluted = node.Verdict != "accept"
+	}
+	if !onClone && polluted {
 		if err := r.restoreVictim(); err != nil {
 			harnessError("restore victim", err)
 		}
 	}
+	return node.Verdict == "accept"
 }
 
 // runCatalogue: every (base block x rule x variant) of one world.
@@ -236,7 +258,12 @@ func (r *runner) runCatalogue(bases map[uint32]bool, only string) {
 					harnessError("cannot build mutant", vr.rule, vr.name, err)
 				}
 				expect := vr.expect
-				if expect == "" { // beneficiary: free unless the staker contract fixes it
+				if expect == "" && vr.rule == "tx_blocklist" { // admissible before the BLOCKLIST fork
+					expect = "accept"
+					if uint32(num) >= w.net.FC.BLOCKLIST {
+						expect = "reject"
+					}
+				} else if expect == "" { // beneficiary: free unless the staker contract fixes it
 					expect = "accept"
 					if pr.sbenef != nil {
 						expect = "reject"
@@ -250,7 +277,11 @@ func (r *runner) runCatalogue(bases map[uint32]bool, only string) {
 				for k, x := range proj {
 					ev[k] = x
 				}
-				r.feed(ev, parent, blk, expect == "accept")
+				mode := "victim"
+				if expect == "accept" {
+					mode = "clone"
+				}
+				r.feed(ev, parent, blk, mode)
 			}
 		}
 		if err := r.advance(base); err != nil {
